@@ -4,7 +4,7 @@
    and under the target-independent IR reading (ir_run), with the exceptions proved as
    refutations at the end. *)
 From PV Require Import Lib.Py Lib.Tac Spec.BitsSpec Spec.WasmNumSpec Model.WasmIr.
-From PV Require Import Gen.wasm_irmap Proofs.C39_bitfun Proofs.C22_base Proofs.C22_helpers.
+From PV Require Import Proofs.C39_bitfun Proofs.C22_base Proofs.C22_helpers.
 From PV Require Gen.irpy_rt Gen.wasm_runtime.
 From Coq Require Import Znumtheory.
 Open Scope Z_scope.
